@@ -221,6 +221,23 @@ fn main() {
 		out.line(&json!({"kind": "restore", "seed": hseed.to_string(), "batch": batch, "chain": chain,
 			"rc": rc, "orig": orig, "restored": restored, "rc2": rc2, "restored2": restored2, "accounts": accounts, "pre_label": pre_label, "both": both}));
 
+		// ---- (1') on a long chain: a second wallet from the same phrase whose owner first scans only the last
+		// blocks (scan with a start height) and then lets the wallet update itself: a wallet restored from seed
+		// is not done before it has looked at the whole chain, whatever was scanned in between
+		if long_chain {
+			let c3 = r.s.add_wallet("w3", Some(&phrase), false);
+			let tip = r.s.node.height();
+			let start3 = tip.saturating_sub(3).max(1);
+			let chain3 = r.chain_outs();
+			let res = guarded(|| owner::scan(r.s.wallets[c3].inst.clone(), None, Some(start3), false, &None));
+			let rc = match &res { Err(_) => vec![2u64], Ok(Err(e)) => vec![1, err_class(e)], Ok(Ok(_)) => vec![0] };
+			let upd = guarded(|| owner::update_wallet_state(r.s.wallets[c3].inst.clone(), None, &None, false));
+			let rc_update = match &upd { Err(_) => vec![2u64], Ok(Err(e)) => vec![1, err_class(e)], Ok(Ok(_)) => vec![0] };
+			let restored3 = r.s.snapshot(c3);
+			out.line(&json!({"kind": "restore_partial", "seed": hseed.to_string(), "chain": chain3, "rc": rc,
+				"rc_update": rc_update, "restored": restored3, "start": start3, "tip": tip}));
+		}
+
 		// ---- (2) inject divergences into wallet 0 and repair by scanning
 		// two times in three a send is pending (initiated, answered, reserved, not finalized)
 		let mut pending = false;
